@@ -4,7 +4,8 @@
    ids, different live connections and different DB-API connections.  Steps are atomic session
    calls in one thread; pre-emption inside a listener is outside the property's step notion. *)
 From Continuum Require Import Model.Base Model.VTable Model.Core Model.Manager Proofs.ManagerP
-     Gen.ManagerGen Proofs.ManagerGenP Model.Savepoint Model.ManagerSp Proofs.ManagerSpP Proofs.SavepointP.
+     Gen.ManagerGen Proofs.ManagerGenP Model.Savepoint Model.ManagerSp Proofs.ManagerSpP Proofs.SavepointP
+     Gen.ManagerSpGen Proofs.ManagerSpGenP.
 
 (* locality: a step of another session does not change anything this session can see (its unit of
    work, its map entry, its database) *)
@@ -115,6 +116,30 @@ Theorem C09_each_session_is_a_savepoint_run : forall dbapi closed conn_of,
   m_of (gsrun dbapi closed g sched) s = mrun g (map mev_of (map snd (filter (mine_sp s) sched))).
 Proof. exact interleaved_session_is_savepoint_run. Qed.
 
+(* the savepoint bookkeeping of the model IS the code: Gen/ManagerSpGen.v is regenerated from the current
+   manager.py (session_unit_of_work, track_savepoint, rollback_savepoint; forget_savepoints checked) on every build by
+   harness/pytrans_sp.py *)
+Theorem C09_session_unit_of_work_is_the_code : forall G sid,
+  gen_session_unit_of_work (g_uows G) (g_smap G) sid = session_uow G sid.
+Proof. exact gen_session_unit_of_work_is_session_uow. Qed.
+
+Theorem C09_track_savepoint_is_the_code : forall G sid,
+  gen_track_savepoint true (g_uows G) (g_smap G) sid = Some (option_map snd (session_uow G sid)) /\
+  gen_track_savepoint false (g_uows G) (g_smap G) sid = None.
+Proof. exact gen_track_savepoint_is_model. Qed.
+
+Theorem C09_rollback_savepoint_is_the_code : forall G sid saved,
+  gen_rollback_savepoint (g_uows G) (g_smap G) sid saved =
+  (g_uows (rollback_savepoint G sid saved), g_smap (rollback_savepoint G sid saved)).
+Proof. exact gen_rollback_savepoint_is_model. Qed.
+
+(* once a session's transaction has ended, none of its savepoints is remembered *)
+Theorem C09_no_savepoint_survives_the_transaction : forall dbapi closed g S s e,
+  e = Commit \/ e = Rollback -> stack_of (gsstep dbapi closed g S s (SE e)) (ss_id s) = [].
+Proof.
+  intros dbapi closed g S s e [->| ->]; unfold stack_of; cbn [gsstep gs_sps]; rewrite aget_adel_same; reflexivity.
+Qed.
+
 Definition c9g : cfg := mkcfg true false false false false [mkcls true true 0 [mkcol true false true; mkcol false false true] []].
 Definition c9ins k v := mkev 0 0 [Some k; Some v] [true;true] [] [0%nat;1%nat] false true [false;false].
 Definition c9d := [mkobj 0 [false;true] [] true false].
@@ -148,6 +173,10 @@ Proof.
             [inversion Hin; first [left; reflexivity | right; repeat split; simpl; congruence]|]). contradiction.
 Qed.
 
+Print Assumptions C09_session_unit_of_work_is_the_code.
+Print Assumptions C09_track_savepoint_is_the_code.
+Print Assumptions C09_rollback_savepoint_is_the_code.
+Print Assumptions C09_no_savepoint_survives_the_transaction.
 Print Assumptions C09_savepoint_locality.
 Print Assumptions C09_interleaving_with_savepoints_equals_solo_run.
 Print Assumptions C09_each_session_is_a_savepoint_run.
